@@ -12,6 +12,7 @@ success path;
 Also decided: the multisig / length / initialised tests of that loader lie on every success path; the permissionless migration only reaches
 reward_infos[1] and [2] through literal indices; the delegated fee authority is confined to adaptive-fee pools (constraint, its test and the
 seed's little-endian encoding).
+Also decided: is_admin_key is membership in the build's ADMINS table and nothing else.
 Not decided: run-time facts about which keys hold which tokens."""
 import re
 from analysis import cfg, atoms as A, accounts as ACC, program, pino, writes
